@@ -33,6 +33,9 @@ def gen_cases(r, scale):
                 code = code[: rnd.randrange(len(code))]
                 kind = "truncated"
             cases.append({"table": name, "code": code, "kind": kind})
+        # every defined opcode of the table at least once, whatever the seed
+        for code in IG.all_opcodes(rnd, t, cz):
+            cases.append({"table": name, "code": code, "kind": "all-opcodes"})
     # real code objects of the historical corpus
     files = IG.corpus_files(limit_per_dir=2 if scale == 1 else None)
     real = C.run_impl_op("corpus_codes", [{"files": files, "max_per_file": 4 if scale == 1 else 12, "max_len": 600}], modules=MODS)[0]
